@@ -158,7 +158,7 @@ def elementary(rng, kinds=None):
     raise ValueError(k)
 
 
-def macrobody(rng, kinds=None):
+def macrobody(rng, kinds=None, irregular=None):
     kinds = kinds or ['rpp', 'box', 'sph', 'rcc', 'rhp9', 'rhp15', 'hex', 'rec10', 'rec12', 'trc', 'ell+', 'ell-',
                       'wed', 'arb6', 'arb5']
     k = rng.choice(kinds)
@@ -189,9 +189,12 @@ def macrobody(rng, kinds=None):
                 out[j] = v[i]
             return out
         rr = rng.choice([1.0, 2.0, 3.0])
+        # regular, or irregular: facet vectors of different lengths (the solid is the intersection of the three slabs)
+        ks, kt = (1.0, 1.0) if irregular is False or (irregular is None and rng.random() < 0.6) else \
+            (rng.choice([0.75, 1.25, 1.5]), rng.choice([0.875, 1.125, 0.75]))
         r = P([rr, 0.0, 0.0])
-        s = P([rr / 2, rr * s3 / 2, 0.0])
-        t = P([-rr / 2, rr * s3 / 2, 0.0])
+        s = P([ks * rr / 2, ks * rr * s3 / 2, 0.0])
+        t = P([-kt * rr / 2, kt * rr * s3 / 2, 0.0])
         hlen = rng.choice([2.0, 4.0]) * rng.choice([1, -1])
         return 'rhp', [c(), c(), c()] + P([0., 0., hlen]) + r + s + t
     if k in ('rec10', 'rec12'):
@@ -563,3 +566,44 @@ def vary_mats(d, rng, p=0.5):
                 continue
             f = rng.choice(['0', '0.0', '0.000', '0.', '1e-3', '0.05', '2.5-2'])
             comp.insert(rng.randint(0, len(comp)), (z, ('-' if neg else '') + f))
+
+
+def complement_chain_deck(rng):
+    """nested regions written with cell complements of cell complements: cell i = inside S_i and outside every inner
+    cell (#1 … #(i-1)), the outermost cell as the complement of all the others; the cards in any order, so that a
+    complement may refer to a cell defined further down whose own expression contains complements"""
+    d = D.Deck()
+    n = rng.randint(2, 5)
+    kind = rng.choice(['so', 'cz', 'slab'])
+    ids = rng.sample(range(1, 40), n + 1)
+    for i in range(1, n + 1):
+        if kind == 'so':
+            d.surfs.append(D.Surf(i, 'so', [float(i) + 0.5]))
+        elif kind == 'cz':
+            d.surfs.append(D.Surf(i, 'cz', [float(i) * 0.75 + 0.25]))
+        else:
+            d.surfs.append(D.Surf(i, 'px', [float(i) - 2.5]))
+    cells = []
+    for i in range(1, n + 1):
+        e = ('s', -i)
+        inner = [('cc', ids[j - 1]) for j in range(1, i)]
+        # the complements of the directly enclosed cell suffice only together with those of all the cells inside it
+        if rng.random() < 0.5:
+            rng.shuffle(inner)
+        for c_ in inner:
+            e = ('i', e, c_) if rng.random() < 0.7 else ('i', c_, e)
+        cells.append(D.Cell(ids[i - 1], e, mat=rng.choice([1, 2]), rho=rng.choice(['-1.0', '-2.7', '0.05'])))
+    outs = [('cc', k) for k in ids[:n]]
+    rng.shuffle(outs)
+    e = outs[0]
+    for c_ in outs[1:]:
+        e = ('i', e, c_)
+    cells.append(D.Cell(ids[n], e, mat=0, imp=rng.choice([0, 1])))
+    m = rng.random()
+    if m < 0.4:
+        cells.reverse()
+    elif m < 0.8:
+        rng.shuffle(cells)
+    d.cells = cells
+    d.mats = {1: [('13027', '1.0')], 2: [('26056', '-0.9'), ('6012', '-0.1')]}
+    return d
